@@ -38,6 +38,9 @@ def jobs(tier, seed):
     for n in (4, 5, 6, 7, 9):
         add(["NthRoot", fam.V(1), n], NUM + EARLY, var="v1")
         add(["NthRoot", ["Negation", fam.V(1)], n], NUM, var="v1")
+    from families import f4
+    for d in f4.param_pairs(tier)[-24:]:       # integral-float spellings of n through every numeric and symbolic route
+        add(d, NUM + EARLY + ASEXP, var="x")
     m = c02.masked()
     for d in (m if tier == "thorough" else m[::2]):
         add(d, NUM + EARLY[:1], var="x")
